@@ -208,6 +208,16 @@ def gen_repo_world(t, family):
                 continue
         return False
 
+    def can_define(p, name):
+        """p may get a definition called `name` only if afterwards no file sees the name in two of its direct imports
+        (the statement orders the model itself, its loaded models and the builtin models - not two loaded models)"""
+        defining = {d.file for d in w.defs if d.parent is None and d.name == name} | {p}
+        for h in paths:
+            imps = set(w.direct_imports(h)) - {h}
+            if len(imps & defining) > 1:
+                return False
+        return True
+
     w.shadows = []
     if family not in GR:
         for p in paths:
@@ -220,7 +230,7 @@ def gen_repo_world(t, family):
                 if not gd:
                     continue
                 victim = t.pick(gd, "shadow-victim")
-                if any(d.file == p and d.name == victim.name for d in w.defs):
+                if any(d.file == p and d.name == victim.name for d in w.defs) or not can_define(p, victim.name):
                     continue
                 # g must not see p's copy through its own imports (p direct import of g => ambiguity only for
                 # names g does not define itself; g defines it, so self wins there)
@@ -244,7 +254,7 @@ def gen_repo_world(t, family):
             if not gd:
                 continue
             victim = t.pick(gd, "ud-victim")
-            if any(d.file == h and d.name == victim.name for d in w.defs):
+            if any(d.file == h and d.name == victim.name for d in w.defs) or not can_define(h, victim.name):
                 continue
             s_ = Ent("def", victim.name, h, None)
             s_.shadow = True
